@@ -119,6 +119,18 @@ def do_case(ctx, inp):
                 break
     if True:
         j = json.loads(json.dumps(to_json(a)))
+        if ctx.rng.random() < 0.5:
+            # a JSON object is an unordered collection of members: the same formula with its keys in another order
+            def reorder(x):
+                if isinstance(x, dict):
+                    ks = list(x)
+                    ks = ks[::-1] if ctx.rng.random() < 0.5 else ctx.rng.sample(ks, len(ks))
+                    return {k: reorder(x[k]) for k in ks}
+                if isinstance(x, list):
+                    return [reorder(v) for v in x]
+                return x
+            j = reorder(j)
+            ctx.tags["json-keys-in-another-order"] += 1
         oj = pg.from_json(j)
         ctx.tags["via-from_json"] += 1
         # the model's own from_json dispatch (PJ.toAst, theorem C04.fromJson_userJson) on the very JSON the code was given …
